@@ -287,7 +287,11 @@ impl AutosarModel {
 
                 let (_, indices_a) = parent_type.find_sub_element(elem_a.element_name(), u32::MAX).unwrap();
                 let (_, indices_b) = parent_type.find_sub_element(elem_b.element_name(), u32::MAX).unwrap();
-                if indices_a < indices_b {
+                if let Some(partner_b) = Self::find_merge_partner(parent_b, elem_a) {
+                    // The sub elements are not ordered in the same way on both sides (the content of e.g. ELEMENTS may have any order):
+                    // elem_a also exists in b, but not at the current position. Merge these two and advance only a.
+                    MergeAction::MergeUnequal(partner_b)
+                } else if indices_a < indices_b {
                     // elem_a comes before elem_b, advance only a
                     // a: <parent> | <a = child 1> <child 2>
                     // b: <parent> |               <b = child 2>
@@ -315,7 +319,10 @@ impl AutosarModel {
                     item_a = iter_a.next();
                 }
                 MergeAction::BOnly(position) => {
-                    if !elements_merge.iter().any(|(_, merge_b)| merge_b == elem_b) {
+                    // elem_b is only new if it has not been merged already, and will not be merged with an element of a that comes later
+                    if !elements_merge.iter().any(|(_, merge_b)| merge_b == elem_b)
+                        && Self::find_merge_partner(parent_a, elem_b).is_none()
+                    {
                         elements_b_only.push((elem_b.clone(), position));
                     }
                     item_b = iter_b.next();
@@ -325,9 +332,13 @@ impl AutosarModel {
         // at least one of the two iterators has reached the end
         // make sure the other one also reaches the end
         if let Some((_, elem_a)) = item_a {
-            elements_a_only.push(elem_a);
-            for (_, elem_a) in iter_a {
-                elements_a_only.push(elem_a);
+            // the remaining elements of a could still have a partner in b, if the sub elements are ordered differently on both sides
+            for elem_a in std::iter::once(elem_a).chain(iter_a.map(|(_, elem_a)| elem_a)) {
+                if let Some(partner_b) = Self::find_merge_partner(parent_b, &elem_a) {
+                    elements_merge.push((elem_a, partner_b));
+                } else {
+                    elements_a_only.push(elem_a);
+                }
             }
         }
         if let Some(elem_b) = item_b {
@@ -357,6 +368,29 @@ impl AutosarModel {
         Self::merge_sub_elements(elements_merge, files, new_file)?;
 
         Ok(())
+    }
+
+    // find the sub element of parent that represents the same item as element:
+    // identifiable elements are identified by their item name, BSW values by their definition-ref.
+    // Elements which have neither can only be matched by their position, so there is never a partner for them.
+    fn find_merge_partner(parent: &Element, element: &Element) -> Option<Element> {
+        let element_name = element.element_name();
+        if element.is_identifiable() {
+            let item_name = element.item_name();
+            parent
+                .sub_elements()
+                .find(|e| e.element_name() == element_name && e.item_name() == item_name)
+        } else {
+            let get_defref = |e: &Element| {
+                e.get_sub_element(ElementName::DefinitionRef)
+                    .and_then(|dr| dr.character_data())
+                    .and_then(|cdata| cdata.string_value())
+            };
+            let defref = get_defref(element)?;
+            parent
+                .sub_elements()
+                .find(|e| e.element_name() == element_name && get_defref(e).as_ref() == Some(&defref))
+        }
     }
 
     // calculate how to merge two identifiable elements
